@@ -25,7 +25,7 @@ def k(h, clause, functions, **kw):
 
 
 def v(unit, fn, clause, source):
-    return dict(engine="verus", unit=unit, function=fn, name="C07/%s/%s" % (unit, fn.replace("::", "_")), clause=clause, source=source)
+    return dict(engine="verus", unit=unit, function=fn, name="C07/%s/%s" % (unit, fn.replace("(C07)", "").replace("::", "_")), clause=clause, source=source)
 
 
 def obligations(tier):
@@ -37,7 +37,7 @@ def obligations(tier):
         v("stack", "StackFrame::add_new_frame", "Ok <=> len + max_stack_size(state) <= stack.max_stack_size; Err(StackOverflow(limit)) leaves the stack unchanged; Ok pushes exactly the frame {offset: len-args, state, excess}", "vm/src/stack.rs::StackFrame::add_new_frame"),
         v("stack", "StackFrame::enter_scope_excess", "the entry point of every call: Ok <=> len + max_stack_size(state) <= limit, Err(StackOverflow(limit)) otherwise; Ok pushes exactly one frame and leaves the values alone", "vm/src/stack.rs::StackFrame::enter_scope_excess"),
         v("stack", "StackFrame::enter_scope", "same guarantee for enter_scope (excess = false)", "vm/src/stack.rs::StackFrame::enter_scope"),
-        v("stack", "arm::TailCall", "a tail call leaves the running frame first (the frame list shrinks) and moves the new function and its arguments down onto the slot of the returning function: nothing of the finished call remains on the stack (constant stack); pending excess arguments are appended to the call", "vm/src/thread.rs::execute_ arm TailCall"),
+        v("stack", "arm::TailCall(C07)", "a tail call leaves the running frame first (the frame list shrinks) and moves the new function and its arguments down onto the slot of the returning function: nothing of the finished call remains on the stack (constant stack); pending excess arguments are appended to the call", "vm/src/thread.rs::execute_ arm TailCall"),
         dict(engine="verus", unit="clone", function="Gc::new_child_gc(limit)", name="C07/gc/new_child_gc_inherits_limit", source="vm/src/gc.rs::Gc::new_child_gc",
              clause="the collector of a spawned thread gets its spawner's memory limit: spawning is no way around the limit"),
         dict(engine="verus", unit="newthread", function="Thread::new_thread::construct(C07)", name="C07/thread/new_thread_inherits_stack_limit", source="vm/src/thread.rs::Thread::new_thread (up to the allocation of the new thread)",
@@ -45,8 +45,8 @@ def obligations(tier):
         dict(engine="verus", unit="toplevel", function="execute::loop_head", name="C07/thread/execute_loop_polls_interrupt", source="vm/src/thread.rs::OwnedContext::execute (loop body up to the dispatch on the frame state)",
              clause="every pass through the frame loop -- every call, tail call and return -- polls the interrupt flag before dispatching: requested => Err(Interrupted), not requested => the dispatch is reached"),
         v("stack", "ExecuteContext::exit_scope", "leaving a scope pops exactly the top frame, never a locked one", "vm/src/thread.rs::ExecuteContext::exit_scope"),
-        v("compiler", "compile_primitive::or", "tail position is propagated into the right operand of `||` (so a recursive call there is a TailCall and runs in constant stack)", "vm/src/compiler.rs::compile_primitive (|| block)"),
-        v("compiler", "compile_primitive::and", "tail position is propagated into the right operand of `&&`", "vm/src/compiler.rs::compile_primitive (&& block)"),
+        v("compiler", "compile_primitive::or(C07)", "tail position is propagated into the right operand of `||` (so a recursive call there is a TailCall and runs in constant stack)", "vm/src/compiler.rs::compile_primitive (|| block)"),
+        v("compiler", "compile_primitive::and(C07)", "tail position is propagated into the right operand of `&&`", "vm/src/compiler.rs::compile_primitive (&& block)"),
         v("compiler", "Instruction::adjust", "adjust(i) == documented stack effect of i", "vm/src/types.rs::Instruction::adjust"),
         v("compiler", "FunctionEnv::increase_stack", "stack_size += n; max_stack_size = max(old max, new size); invariant max >= size", "vm/src/compiler.rs::FunctionEnv::increase_stack"),
         v("compiler", "FunctionEnv::emit", "size' = size + effect(i) (Slide(0) is dropped); instruction appended; max monotone and >= size", "vm/src/compiler.rs::FunctionEnv::emit"),
